@@ -511,3 +511,36 @@ def rule_grouped(ctx):
             ctx.bad(rid, "%s|length-assert-missing" % f.path, "the regrouping from_raw_parts is not dominated by the buffer length equality", fn=f, pos=t[-2])
     if n < 2:
         ctx.anchor_missing(rid, "FrameBuffer::buf_grouped / buf_grouped_mut")
+
+
+def rule_type_census(ctx, which):
+    """quick-tier type-level facts from the driver's impl/ADT tables (the compile_fail witnesses run in the thorough tier)"""
+    rid = "E-TYPE-CENSUS"
+    ctx.rule(rid, "from the type-checked program: no Clone/Copy impl exists for MutableSubgrid / AllocHandle; MutableSubgrid::new and "
+                  "SharedSubgrid::new are unsafe fns; AllocHandle's fields are private")
+    g = ctx.prog.crate("jxl_grid")
+    targets = {"grid": ["jxl_grid::mutable_subgrid::MutableSubgrid<"], "handle": ["jxl_grid::alloc_tracker::AllocHandle"]}[which]
+    for i in g.impls:
+        if i["trait"] in ("core::clone::Clone", "core::marker::Copy") and any(i["self"].startswith(t) for t in targets):
+            ctx.bad(rid, "clonable:%s" % i["self"], "%s now implements %s: a duplicated %s" % (i["self"], i["trait"],
+                    "mutable view aliases memory across threads" if which == "grid" else "handle returns its bytes twice"))
+    ctx.ok(rid, "not-clone:" + which, "no Clone/Copy impl for %s" % targets, nontrivial=True)
+    if which == "grid":
+        for nm in ("jxl_grid::mutable_subgrid::MutableSubgrid::<'g, V>::new", "jxl_grid::shared_subgrid::SharedSubgrid::<'g, V>::new"):
+            f = g.fn(nm)
+            if f is None:
+                ctx.anchor_missing(rid, nm)
+            elif f.unsafe:
+                ctx.ok(rid, "unsafe-ctor:" + nm.split("::")[-3], "unsafe fn", fn=f)
+            else:
+                ctx.bad(rid, "safe-ctor:" + nm, "%s is no longer an unsafe fn: a view over arbitrary memory can be built from safe code" % nm, fn=f)
+    else:
+        adt = g.adts.get("jxl_grid::alloc_tracker::AllocHandle")
+        if adt is None:
+            ctx.anchor_missing(rid, "AllocHandle")
+        else:
+            pub = [fl[0] for v in adt["variants"] for fl in v["fields"] if fl[2] == "Public"]
+            if pub:
+                ctx.bad(rid, "handle-public-field:" + ",".join(pub), "AllocHandle has public fields %s: the recorded amount can be edited or a handle forged" % pub)
+            else:
+                ctx.ok(rid, "handle-fields-private", "all fields restricted", nontrivial=True)
